@@ -289,6 +289,8 @@ type scenario struct {
 	lag bool
 	// the fair environment makes the first child unhealthy this round (0 = no; 1-3 = how observedGeneration is reported)
 	sick int
+	// how the children's controller reports status.observedGeneration in this scenario: 0 properly, 1 not at all, 2 always 0
+	ogMode int
 }
 
 func ownerRef(parent map[string]interface{}, controller bool) vs.M {
